@@ -569,11 +569,25 @@ class Evaluator:
             tab = self._global_tuple(it[1])
             if tab is not None and tab[0] == 'tuple':
                 it = tab
-        if it[0] == 'call' and it[1] == ('global', 'builtins.range') and len(it[2]) == 1 and \
-                not it[3] and it[2][0][0] == 'const' and type(it[2][0][1]) is int and \
-                it[2][0][1] <= 4:
-            # range(n) with a known small n (typically a helper's parameter bound at the call)
-            it = ('tuple', tuple(('const', k) for k in range(it[2][0][1])))
+        if it[0] == 'call' and it[1] == ('global', 'builtins.range') and not it[3]:
+            # integer constant folding of the bounds (range(2, 2 + n_dims) with n_dims bound to a
+            # constant at the call of a helper)
+            def _fold(a):
+                if a[0] == 'bin' and a[1] in ('+', '-', '*'):
+                    x, y = _fold(a[2]), _fold(a[3])
+                    if x[0] == 'const' and y[0] == 'const' and type(x[1]) is int and \
+                            type(y[1]) is int:
+                        return ('const', {'+': x[1] + y[1], '-': x[1] - y[1],
+                                          '*': x[1] * y[1]}[a[1]])
+                return a
+            it = (it[0], it[1], tuple(_fold(a) for a in it[2]), it[3])
+        if it[0] == 'call' and it[1] == ('global', 'builtins.range') and 1 <= len(it[2]) <= 3 and \
+                not it[3] and all(a[0] == 'const' and type(a[1]) is int for a in it[2]) and \
+                (len(it[2]) < 3 or it[2][2][1] != 0) and \
+                len(range(*[a[1] for a in it[2]])) <= 4:
+            # range(n) / range(a, b) with known small bounds (typically a helper's parameter
+            # bound at the call)
+            it = ('tuple', tuple(('const', k) for k in range(*[a[1] for a in it[2]])))
             if not it[1]:
                 s.events.append(Event('loopend', ((st.lineno, st.col_offset), it), st, s.ctx))
                 return self.block(st.orelse, [s])
